@@ -86,5 +86,11 @@ func GetTimeFromTicks(intervalStart uint64, intervalsPerDay, intervalTicks uint3
 	const round = 0.5
 	nanosec = uint32(subseconds + round)
 
+	// Rounding the seconds to 8 decimals can carry into the next second while the sub-second
+	// part still belongs to the previous one (e.g. x.999999998): take that carry back.
+	if nanosec >= uint32(nanosecond)/2 && float64(sec-intervalStart) > fractionalSeconds {
+		sec--
+	}
+
 	return sec, nanosec
 }
